@@ -7,7 +7,7 @@
    Matcher is an abstract id of type [M]; what ProjectFiles asks of a Matcher
    is a Section variable:
      prefix m            Matcher.prefix
-     pat m               the class of Matcher.pattern under Pattern.__eq__
+     pat m m'            m.pattern == m'.pattern (Pattern.__eq__)
      matches m p         Matcher.match(p) is not None
      sub m m' p          Matcher.sub(m', p)
      with_locale m       m.with_env({"locale": locale or REFERENCE_LOCALE})
@@ -147,7 +147,7 @@ Arguments project : clear implicits.
 Section ProjectFiles.
 Context {M : Type}.
 Variable prefix : M -> str.
-Variable pat : M -> N.
+Variable pat : M -> M -> bool.          (* Pattern.__eq__ of the two matchers' patterns *)
 Variable realpath : str -> str.
 Variable matches : M -> str -> bool.
 Variable sub : M -> M -> str -> option str.
@@ -226,7 +226,7 @@ Fixpoint configs_matchers (locale : option str) (has_merge : bool) (cs : list (c
 Definition dup_check (m m_ : mrec) : pres bool :=
   if negb (str_eqb (realpath (prefix (m_l10n m))) (realpath (prefix (m_l10n m_))))
   then POk false
-  else if negb (N.eqb (pat (m_l10n m)) (pat (m_l10n m_))) then POk false
+  else if negb (pat (m_l10n m) (m_l10n m_)) then POk false
   else match m_ref m with
        | Some r =>
            match m_ref m_ with
